@@ -402,3 +402,12 @@ MANIFEST_TEXT["C20"] = dict(
     technique="property-based testing (rapid): JSON round trip, algebraic laws (idempotence, independence of clones), differential behaviour of parsers built from reported configurations",
     level="Generated-value exploration over all configuration types and a boundary pool; thorough adds a native fuzz campaign on ParseJSON (no panic).",
     note=NOTE_PBT)
+
+# bounded native fuzz campaigns (thorough tier only)
+CHECKS["C01"]["fuzz"] = [{"target": "FuzzC01", "time": "90s"}]
+CHECKS["C05"]["fuzz"] = [{"target": "FuzzC05", "time": "60s"}]
+CHECKS["C09"]["fuzz"] = [{"target": "FuzzC09", "time": "120s"}]
+CHECKS["C10"]["fuzz"] = [{"target": "FuzzC10", "time": "60s"}]
+CHECKS["C11"]["fuzz"] = [{"target": "FuzzC11", "time": "90s"}]
+CHECKS["C12"]["fuzz"] = [{"target": "FuzzC12", "time": "60s"}]
+CHECKS["C20"]["fuzz"] = [{"target": "FuzzC20", "time": "60s"}]
